@@ -1,6 +1,7 @@
 import Drivers.Chk
 import Drivers.Num
 import Drivers.TimeD
+import Drivers.Tab
 
 def main (args : List String) : IO UInt32 := do
   let stdin ← IO.getStdin
@@ -8,4 +9,5 @@ def main (args : List String) : IO UInt32 := do
   | ["chk"] => Drivers.loop stdin () (fun _ l => ((), Drivers.Chk.step l)); return 0
   | ["num"] => Drivers.loop stdin () (fun _ l => ((), Drivers.Num.step l)); return 0
   | ["time"] => Drivers.loop stdin () (fun _ l => ((), Drivers.TimeD.step l)); return 0
+  | ["tab"] => Drivers.loop stdin () (fun _ l => ((), Drivers.Tab.step l)); return 0
   | _ => IO.eprintln "usage: driver <stream>"; return 2
